@@ -429,7 +429,7 @@ func genDropLocks(m *model.Model, scope map[string]bool, class string) []mutant 
 		}
 		for _, tname := range concurrencySafeTypes(m) {
 			switch class {
-			case "subjects":
+			case "subjects", "subjects-broadcast":
 				if !subjects[tname] {
 					continue
 				}
@@ -483,6 +483,50 @@ func genDropLocks(m *model.Model, scope map[string]bool, class string) []mutant 
 				})
 				if len(eds) < 2 {
 					continue
+				}
+				if class == "subjects-broadcast" {
+					// only methods that notify a stored observer while holding the mutex (not the deferred hand-off of the
+					// unicast subject, not the query methods): the others are C10/C13 matters
+					notifies := false
+					rv := recvObj(info, fd)
+					var visit func(f2 *ast.FuncDecl, depth int)
+					visit = func(f2 *ast.FuncDecl, depth int) {
+						if f2 == nil || f2.Body == nil || depth > 2 {
+							return
+						}
+						r2 := recvObj(info, f2)
+						ast.Inspect(f2.Body, func(n ast.Node) bool {
+							if d, isDefer := n.(*ast.DeferStmt); isDefer {
+								_ = d
+								return false
+							}
+							call, ok := n.(*ast.CallExpr)
+							if !ok {
+								return true
+							}
+							sel, ok := ast.Unparen(call.Fun).(*ast.SelectorExpr)
+							if !ok {
+								return true
+							}
+							if id, ok := ast.Unparen(sel.X).(*ast.Ident); ok && objOf(info, id) == types.Object(r2) {
+								for _, o := range methodsOf(p, tname) {
+									if o.Name.Name == sel.Sel.Name {
+										visit(o, depth+1)
+									}
+								}
+								return true
+							}
+							if name, isObs := m.Obj.ObserverMethods[model.Callee(info, call)]; isObs && notifKind(name) >= 0 {
+								notifies = true
+							}
+							return true
+						})
+					}
+					_ = rv
+					visit(fd, 0)
+					if !notifies {
+						continue
+					}
 				}
 				out = append(out, mutant{ID: fmt.Sprintf("drop-locks:ro.%s.%s", tname, fd.Name.Name), Op: "drop-locks", Group: "ro." + tname, File: fileOf(m, fd.Pos()),
 					Edits: eds, Expect: "ro." + tname, Desc: fmt.Sprintf("%s.%s: mutex no longer taken", tname, fd.Name.Name)})
